@@ -195,7 +195,7 @@ func runC01(c *core.Ctx) {
 	case 6: // big trees in extreme shapes: sparsest (Fibonacci) AVL shapes built without rotations, sorted runs, random
 		r := c.R
 		bigDen := 6 // trees beyond 1024 values: 1 in 6 of this family (thorough: 1 in 40, the case count is 500 times higher)
-		if c.Tier == "thorough" {
+		if c.Tier == "thorough" || c.Mode == "par" {
 			bigDen = 40
 		}
 		var pre []int
@@ -356,6 +356,7 @@ func avlCasePre[T comparable](c *core.Ctx, tname string, univ []T, cmp func(a, b
 		return m
 	}
 	// full observation of one tree against its model
+	var keptRes, keptSnap []T // a slice returned by an earlier observation (any tree), and what it held
 	checkTree := func(li int, op string) bool {
 		l := live[li]
 		var in, pre, post []T
@@ -368,6 +369,15 @@ func avlCasePre[T comparable](c *core.Ctx, tname string, univ []T, cmp func(a, b
 			return false
 		}
 		c.Count("observations", 1)
+		// results are the caller's: one kept from an earlier observation must not have changed
+		if keptRes != nil && !eqSlice(keptRes, keptSnap) {
+			fail(op+":earlier-result-changed", fmt.Sprintf("a slice returned by an earlier Slice* call held %v; after later calls it holds %v", keptSnap, keptRes))
+			return false
+		}
+		if len(pre) > 0 && r.Chance(1, 4) {
+			keptRes = l.t.SlicePreOrder()
+			keptSnap = append([]T(nil), keptRes...)
+		}
 		if ln != len(l.model) {
 			fail(op+":Len", fmt.Sprintf("tree %d after %s: Len()=%d, model size %d", li, op, ln, len(l.model)))
 			return false
@@ -698,6 +708,28 @@ func avlCasePre[T comparable](c *core.Ctx, tname string, univ []T, cmp func(a, b
 			}
 		}
 		c.Count("big_trees_drained_by_remove_then_reused", 1)
+	}
+	// a storm of Clears on one tree: 300 rounds of (Add a few, Clear), the tree must be
+	// empty after every single one (counters of a lazily clearing implementation wrap)
+	if r.Chance(1, 12) {
+		l := live[0]
+		for i := 0; i < 300; i++ {
+			for k := 0; k <= i%3; k++ {
+				l.t.Add(univ[(i+k)%len(univ)])
+			}
+			l.t.Clear()
+			if l.t.Len() != 0 || len(l.t.SliceInOrder()) != 0 || l.t.Contains(univ[i%len(univ)]) {
+				hist = append(hist, fmt.Sprintf("storm: %d x (Add a few, Clear)", i+1))
+				fail("Clear:not-empty", fmt.Sprintf("after Clear number %d of a storm of Clears tree 0 is not empty: Len()=%d in-order %v", i+1, l.t.Len(), l.t.SliceInOrder()))
+				return
+			}
+		}
+		l.model = nil
+		hist = append(hist, "storm: 300 x (Add a few, Clear)")
+		c.Count("clear_storms", 1)
+		if !checkAll("Clear") {
+			return
+		}
 	}
 	if nontrivial {
 		c.NonTrivial(hh)
